@@ -67,6 +67,8 @@ class Ops:
     def conn(c): return f"conn {c}"
     @staticmethod
     def disc(c): return f"disc {c}"
+    @staticmethod
+    def dump(): return "dump"
 
 def write_cases(path, cases):
     """cases: list of (name, [op lines])"""
